@@ -214,6 +214,10 @@ def run(rep, facts, tier):
         ok = any(callee_res(t).endswith('::get') and any(ogx.of_operand(a, bb, 'term')[0] == 'param' for a in t['args'][1:]) for bb, t in x.calls())
         rep.check(ok, 'R15.3', '%s/by-id' % g, 'looks the parameter up by id in the map', '%s does not look its parameter up by id' % g, x.where())
 
+    # ------------------------------------------------------------ R15.6 crossed roles (shared lint, rdv/swaplint.py)
+    from rdv import swaplint
+    swaplint.run_rule(rep, facts['default'], 'R15.6', ['discovery::', 'dds::qos', 'serialization::', 'messages::submessages::elements::parameter'])
+
 
 def ctor_field_map(fx, callee_key):
     """For a simple constructor (returns an aggregate whose fields are its parameters): {param index: field name}."""
